@@ -22,6 +22,7 @@ Action(e) == CASE IsEdit(e) -> EditTo(e.content)
                [] e.op = "undill_auto" -> Undill(TRUE)
                [] e.op = "undill_noauto" -> Undill(FALSE)
                [] e.op = "corrupt" -> Corrupt
+               [] e.op \in {"trunc_funcs", "trunc_lists"} -> (IF disk.kind = "file" THEN Truncate ELSE Op("truncate") /\ UNCHANGED <<modelVer, hashVer, disk, loaded, reported, raised>>)
                [] e.op = "delete" -> Delete
 Judge(e) ==
     LET ran == (IsLoad(e) \/ e.op = "prepare") /\ ~e.raised
